@@ -1,0 +1,20 @@
+// Copyright 2024 The go-python Authors.  All rights reserved.
+// Use of this source code is governed by a BSD-style
+// license that can be found in the LICENSE file.
+
+//go:build verif
+
+package vm
+
+import "github.com/go-python/gpython/py"
+
+// VerifInstrHook, when set, is called by RunFrame before each
+// instruction is dispatched.  pc is the offset of the opcode byte.
+// Verification builds (-tags verif) only.
+var VerifInstrHook func(frame *py.Frame, opcode OpCode, arg int32, pc int32)
+
+func verifInstr(frame *py.Frame, opcode OpCode, arg int32, pc int32) {
+	if VerifInstrHook != nil {
+		VerifInstrHook(frame, opcode, arg, pc)
+	}
+}
